@@ -1,7 +1,8 @@
-(* extraction of the C05 executable models (Model/Cache.v, Model/C05Entry.v, Model/C05Lru.v); ExtrOcamlBasic only *)
+(* extraction of the C05 executable models (Model/Cache.v, Model/C05Entry.v, Model/C05Lru.v, Model/C05Thread.v); ExtrOcamlBasic only *)
 Require Extraction.
 Require Import ExtrOcamlBasic.
-Require Import Base Overlap Cache C05Entry C05Lru.
+Require Import Base Overlap Cache C05Entry C05Lru C05Thread.
 Extraction Language OCaml.
 Extraction "../ocaml/gen/c05_model.ml" drv_doc_of rel_toks run_lint_code run_set_cfg run_evict fresh mkdoc mkclint code_key_eqb
-  drv_new drv_stored drv_wasm_set_cfg drv_wasm_sync drv_ls_rebuild drv_ignore drv_clear_ignored drv_evict drv_entry_lint drv_effective drv_lru_words.
+  drv_new drv_stored drv_wasm_set_cfg drv_wasm_sync drv_ls_rebuild drv_ignore drv_clear_ignored drv_evict drv_entry_lint drv_effective drv_lru_words
+  drv_fuzzy_served drv_builders_init drv_ed.
